@@ -81,6 +81,7 @@ func cmdExplore(args []string) {
 	nopanic := fs.Bool("nopanic", true, "panics are violations")
 	slog := fs.String("solverlog", "", "write worker 0's SMT session here")
 	maxpaths := fs.Int("maxpaths", 0, "path limit")
+	nosumm := fs.Bool("nosumm", false, "disable pure-callee summarisation")
 	allev := fs.Bool("allevents", false, "one event per choice vector")
 	fs.Parse(args)
 	rest := fs.Args()
@@ -112,7 +113,7 @@ func cmdExplore(args []string) {
 		}
 	}
 	cfg := &interp.Config{Prog: prog, Pkg: pkg, Entry: rest[0], Args: iargs, Workers: *workers, Solver: *solver,
-		Paranoid: *paranoid, NoPanic: *nopanic, SolverLog: *slog, MaxPaths: *maxpaths, AllEvents: *allev}
+		Paranoid: *paranoid, NoPanic: *nopanic, SolverLog: *slog, MaxPaths: *maxpaths, AllEvents: *allev, NoSummaries: *nosumm}
 	res := interp.Explore(cfg)
 	printResult(res)
 }
